@@ -3,6 +3,7 @@
 use crate::c10::Who;
 use crate::common::kf::Verdicts;
 use crate::common::node::{Node, NodeOpts};
+use crate::common::rng::Rng;
 use crate::common::session::Session;
 use crate::common::*;
 use nundb::bo::{ClusterRole, Databases};
@@ -613,6 +614,215 @@ pub fn c10_transports(v: &Verdicts, cases: &[(Who, Vec<(String, String)>)], budg
                     }
                 };
             }
+        }
+    }
+    st
+}
+
+// ---------------------------------------------------------------- session isolation over the transports (C08, C09)
+/// What a whole client session over one transport got back: every reply / message, as one text.
+fn exchange(live: &LiveNode, transport: &str, lines: &[String], n: u64) -> Result<String, String> {
+    let mk = format!("isomark-{}", n);
+    match transport {
+        "tcp" => {
+            let mut c = TcpClient::connect(&live.tcp).map_err(|e| format!("tcp connect: {}", e))?;
+            for l in lines {
+                c.send(format!("{}\n", l).as_bytes());
+            }
+            c.send(format!("{}\n", mk).as_bytes());
+            match c.read_until(&mk, Duration::from_secs(20)) {
+                Ok(l) => Ok(l.join("\n")),
+                Err((eof, l)) => Err(format!("tcp session {} before the marker reply: {:?}", if eof { "closed" } else { "silent" }, l.iter().rev().take(2).collect::<Vec<_>>())),
+            }
+        }
+        "http" => http_post(&live.http, lines.join(";").as_bytes(), Duration::from_secs(20)),
+        _ => {
+            let mut c = WsClient::connect(&live.ws)?;
+            for l in lines {
+                c.send_text(l);
+            }
+            c.send_text(&mk);
+            let r = c.read_until(&mk, Duration::from_secs(20));
+            match r {
+                Ok(l) => {
+                    c.close();
+                    Ok(l.join("\n"))
+                }
+                Err((eof, l)) => Err(format!("ws session {} before the marker reply: {:?}", if eof { "closed" } else { "silent" }, l.iter().rev().take(2).collect::<Vec<_>>())),
+            }
+        }
+    }
+}
+
+#[derive(Default)]
+pub struct IsoStats {
+    pub rounds: u64,
+    pub admin_sessions: u64,
+    pub other_sessions: u64,
+    pub tcp: u64,
+    pub http: u64,
+    pub ws: u64,
+    pub commands_judged: u64,
+    pub cells: std::collections::BTreeSet<String>,
+}
+
+impl IsoStats {
+    pub fn to_json(&self) -> serde_json::Value {
+        json!({"rounds": self.rounds, "administrator_sessions": self.admin_sessions, "non_administrator_sessions": self.other_sessions, "tcp_sessions": self.tcp, "http_requests": self.http, "ws_sessions": self.ws, "commands_judged": self.commands_judged, "distinct (transport, credential, command) cells": self.cells.len()})
+    }
+}
+
+/// Sessions of different clients over the real servers must not inherit anything from each other: administrator
+/// sessions (over every transport, enough HTTP requests to pass through every worker thread) are followed by and
+/// interleaved with sessions that never authenticate as administrator; those must neither learn nor change what
+/// C08 (`secure` = true: $$ keys) or C09 (administrator commands, keys outside the permission list) protects.
+pub fn session_isolation(v: &Verdicts, secure: bool, rng: &mut Rng, rounds: usize) -> IsoStats {
+    let mut st = IsoStats::default();
+    let dir = fresh_dir("iso-live");
+    let live = match LiveNode::start(&dir, true) {
+        Some(l) => l,
+        None => {
+            v.inconclusive("could not bind loopback ports for the transport servers");
+            return st;
+        }
+    };
+    let mut n = 0u64;
+    let transports = ["tcp", "http", "ws"];
+    let mut adm = Session::new();
+    adm.call(&live.dbs, "auth admin pwd");
+    adm.call(&live.dbs, "use-db db tok");
+    let read = |adm: &mut Session, key: &str| -> String { adm.call(&live.dbs, &format!("get {}", key)).pushed.join("").trim().to_string() };
+    for round in 0..rounds {
+        st.rounds += 1;
+        let secret = format!("SEC{:x}", rng.next());
+        // administrator traffic
+        let admin_lines: Vec<String> = vec!["auth admin pwd".into(), "use-db db tok".into(), format!("set $$secret {}", secret), format!("set $$hidden7 {}x", secret), format!("set b1 {}b", secret), format!("set a1 {}a", secret), "get $$secret".into()];
+        let n_admin = if round % 2 == 0 { 12 } else { rng.range(1, 6) };
+        for i in 0..n_admin {
+            let t = if round % 2 == 0 { if i < 9 { "http" } else { transports[i % 3] } } else { *rng.pick(&transports) };
+            n += 1;
+            st.admin_sessions += 1;
+            match exchange(&live, t, &admin_lines, n) {
+                Ok(r) => {
+                    if !r.contains(&secret) {
+                        v.inconclusive(&format!("administrator session over {} did not read back its own $$secret: {:?}", t, r.chars().take(200).collect::<String>()));
+                    }
+                }
+                Err(e) => v.inconclusive(&format!("administrator session over {}: {}", t, e)),
+            }
+        }
+        let perm_before = read(&mut adm, "$$permission_$u");
+        // sessions that are not administrators
+        let n_other = rng.range(4, 10);
+        for _ in 0..n_other {
+            let t = *rng.pick(&transports);
+            let cred = rng.below(3);
+            let (cred_name, login): (&str, Vec<String>) = match cred {
+                0 => ("none", vec![]),
+                1 => ("db-token", vec!["use-db db tok".into()]),
+                _ => ("user-token", vec!["use-db db u utok".into()]),
+            };
+            // (command, what must not show in the replies, what to look at afterwards)
+            let newdb = format!("iso{}", n);
+            let pool: Vec<(String, &str)> = if secure {
+                vec![
+                    ("get $$secret".into(), "get-secure"),
+                    ("get-safe $$secret".into(), "get-safe-secure"),
+                    ("keys $$*".into(), "keys-secure-pattern"),
+                    ("keys".into(), "keys-all"),
+                    ("keys *7".into(), "keys-suffix"),
+                    (format!("set $$secret hacked{}", n), "set-secure"),
+                    (format!("set-safe $$secret 0 hacked{}", n), "set-safe-secure"),
+                    ("increment $$secret 1".into(), "increment-secure"),
+                    ("remove $$secret".into(), "remove-secure"),
+                    ("remove $$token".into(), "remove-token"),
+                    ("watch $$secret".into(), "watch-secure"),
+                ]
+            } else {
+                vec![
+                    (format!("create-db {} t", newdb), "create-db"),
+                    ("create-user eve pw".into(), "create-user"),
+                    ("set-permissions u rwix *".into(), "set-permissions"),
+                    ("cluster-state".into(), "cluster-state"),
+                    ("metrics-state".into(), "metrics-state"),
+                    ("snapshot false".into(), "snapshot"),
+                    ("get b1".into(), "get-outside-permissions"),
+                    (format!("set a1 hacked{}", n), "set-outside-permissions"),
+                    ("increment a1 1".into(), "increment-outside-permissions"),
+                    ("remove a1".into(), "remove-outside-permissions"),
+                ]
+            };
+            let k = rng.range(1, 4);
+            let mut lines = login.clone();
+            let mut classes: Vec<&str> = vec![];
+            for _ in 0..k {
+                let (c, class) = rng.pick(&pool).clone();
+                lines.push(c);
+                classes.push(class);
+            }
+            n += 1;
+            st.other_sessions += 1;
+            match t {
+                "tcp" => st.tcp += 1,
+                "http" => st.http += 1,
+                _ => st.ws += 1,
+            }
+            let reply = match exchange(&live, t, &lines, n) {
+                Ok(r) => r,
+                Err(e) => {
+                    v.inconclusive(&format!("session over {}: {}", t, e));
+                    continue;
+                }
+            };
+            st.commands_judged += k as u64;
+            for c in &classes {
+                st.cells.insert(format!("{}/{}/{}", t, cred_name, c));
+            }
+            let mut problems: Vec<&str> = vec![];
+            if secure {
+                if reply.contains(&secret) {
+                    problems.push("secure-value-disclosed");
+                }
+                if reply.contains("$$hidden7") {
+                    problems.push("secure-key-name-listed");
+                }
+                if read(&mut adm, "$$secret") != format!("value {}", secret) || read(&mut adm, "$$hidden7") != format!("value {}x", secret) || read(&mut adm, "$$token") != "value tok" {
+                    problems.push("secure-key-changed");
+                }
+            } else {
+                let data_allowed = cred != 0; // a session without any credential can do nothing at all
+                if live.dbs.map.read().map(|m| m.contains_key(&newdb)).unwrap_or(false) {
+                    problems.push("create-db-executed-without-administrator");
+                }
+                if read(&mut adm, "$$user_eve") != "value <Empty>" {
+                    problems.push("create-user-executed-without-administrator");
+                }
+                if read(&mut adm, "$$permission_$u") != perm_before {
+                    problems.push("set-permissions-executed-without-administrator");
+                }
+                if reply.contains(&live.tcp) || reply.contains("metrics-state ") {
+                    problems.push("cluster-data-returned-without-administrator");
+                }
+                // user u: r a*|w b*  — b1 unreadable, a1 unwritable; no credential: nothing readable or writable
+                if cred != 1 && reply.contains(&format!("{}b", secret)) {
+                    problems.push("value-returned-outside-the-credential");
+                }
+                if (cred != 1 || !data_allowed) && read(&mut adm, "a1") != format!("value {}a", secret) {
+                    problems.push("key-changed-outside-the-credential");
+                }
+                if cred == 1 {
+                    // the db-token session may legitimately have changed a1: put it back for the next session
+                    adm.call(&live.dbs, &format!("set a1 {}a", secret));
+                }
+            }
+            for p in problems {
+                let sig = json!({"check": "session-isolation-over-transports", "transport": t, "credential": cred_name, "problem": p});
+                v.report(sig, json!({"transport": t, "credential": cred_name, "lines": lines, "reply": reply.chars().take(600).collect::<String>(), "administrator_sessions_before": st.admin_sessions, "round": round}));
+            }
+        }
+        if live.loop_dead.load(Ordering::SeqCst) {
+            v.inconclusive("replication loop died during the session-isolation part");
+            break;
         }
     }
     st
